@@ -284,12 +284,17 @@ pub fn gen_data(
 ) -> DataGen {
     let xmax = rng.range(3.0, 10.0);
     let jitter = rng.chance(0.3);
+    // grid variants: [0, xmax] (usual), shifted to start at a positive offset, centred on 0,
+    // descending order
+    let grid = rng.weighted(&[6.0, 1.0, 1.0, 1.0]);
     let x: Vec<f64> = (0..n)
         .map(|i| {
-            let base = if n > 1 {
-                xmax * i as f64 / (n - 1) as f64
-            } else {
-                xmax * 0.5
+            let t = if n > 1 { i as f64 / (n - 1) as f64 } else { 0.5 };
+            let base = match grid {
+                1 => xmax * (0.2 + 0.8 * t),
+                2 => xmax * (t - 0.5) * 0.8,
+                3 => xmax * (1.0 - t),
+                _ => xmax * t,
             };
             let v = if jitter && i > 0 {
                 base + rng.range(-0.3, 0.3) * xmax / n as f64
@@ -305,10 +310,16 @@ pub fn gen_data(
     let xv: DVector<f64> = vec_of(&x);
     let phi = refmath::phi::<f64>(spec, &xv, &alpha_true);
     let mut y = vec![];
+    // magnitude of the observations: mostly O(1), sometimes tiny or large
+    let yscale = match rng.below(10) {
+        0 => rng.log_uniform(-6.0, -2.0),
+        1 => rng.log_uniform(2.0, 6.0),
+        _ => 1.0,
+    };
     for _ in 0..s {
         let c: Vec<f64> = (0..spec.m())
             .map(|_| {
-                let v = rng.range(0.5, 5.0);
+                let v = rng.range(0.5, 5.0) * yscale;
                 if rng.chance(0.3) {
                     -v
                 } else {
@@ -318,7 +329,7 @@ pub fn gen_data(
             .collect();
         let cv = DVector::from_vec(c);
         let clean = &phi * cv;
-        let scale = clean.iter().fold(0.0f64, |m, v| m.max(v.abs())).max(1e-3);
+        let scale = clean.iter().fold(0.0f64, |m, v| m.max(v.abs())).max(1e-3 * yscale);
         let col: Vec<f64> = clean
             .iter()
             .map(|v| rw(width, v + noise_rel * scale * rng.normal()))
